@@ -187,6 +187,7 @@ theorem spec_zrange_last (z : Spec.ZSet) : Spec.zrange z (-1) (-1) = z.drop (z.l
 theorem zrangeDev_pop (len : Nat) (hl : 0 < len) :
     zrangeDev false len 0 0 = false ∧ zrangeDev false len (-1) (-1) = false := by
   unfold zrangeDev normIdx
+  rw [if_neg (Nat.ne_of_gt hl), if_neg (Nat.ne_of_gt hl)]
   simp only [Int.max_def]
   constructor
   · simp
